@@ -74,7 +74,7 @@ SUPPORTED = {
 
 # calibrated on the pinned tree: solo run -> [] when silent, DDLParserError when loud
 UNSUPPORTED = {
-    "query": ["SELECT a, b FROM t WHERE x = 1;", "SELECT\n  a,\n  b\nFROM t\nWHERE x > 2;", "WITH x AS (SELECT 1) SELECT * FROM x;",
+    "query": ["SELECT id FROM users WHERE flags & 4 = 4;", "SELECT ~a, !b FROM t WHERE c ? 'k' AND d | 1 = 1 AND e % 2 = 0;", "SELECT a, b FROM t WHERE x = 1;", "SELECT\n  a,\n  b\nFROM t\nWHERE x > 2;", "WITH x AS (SELECT 1) SELECT * FROM x;",
               "SELECT count(*) FROM s.t GROUP BY a HAVING count(*) > 1;", "(SELECT 1) UNION (SELECT 2);"],
     "dml": ["UPDATE t SET a = 2 WHERE b = 3;", "MERGE INTO t USING s ON t.a = s.a WHEN MATCHED THEN UPDATE SET b = 1;",
             "TRUNCATE TABLE t;"],
@@ -97,6 +97,9 @@ UNSUPPORTED = {
                                          "CREATE RULE r AS ON INSERT TO t DO\nINSERT INTO log VALUES (1);"],
     # an unsupported statement behind a stray statement terminator on the same line
     "stray_semicolon": ["; SELECT 1;", "; WITH x AS (SELECT 1) SELECT * FROM x;", "; COMMIT;", "; UPDATE t SET a = 1;", ";; SELECT 2;", ";SELECT 1;"],
+    # a complete CREATE TABLE followed by something the grammar does not know (the error comes after the column list)
+    "table_with_unknown_tail": ["CREATE TABLE ta (id int, total decimal(10,2)) AS SELECT id, total FROM orders;", "CREATE TABLE tb (a int) COMPRESS FOR OLTP;",
+                                "CREATE TABLE tc (a int) NOT LOGGED INITIALLY;"],
     # malformed statements with unbalanced parentheses (they leave lp_open / last_par set in the lexer)
     "unparseable": ["CALL p((1, 2);", "SELECT f(a FROM t;", "SELECT a FROM t WHERE b IN (1, 2;",
                     "CREATE VIEW v AS SELECT (a + (b * 2) FROM t;", "CALL p(1, 2));", "SELECT ((a FROM t;"],
